@@ -60,7 +60,7 @@ def inventory_rule(rep, prog, cfg):
     rep.count("roots_" + cfg, len(roots))
     rep.count("bodies_analysed_" + cfg, len([x for x in R if prog.bodies[x].crate == "mpd_protocol"]))
     rep.count("sites_" + cfg, len(sites))
-    used = {}
+    rest = []
     for s in sites:
         inst = "%s/%s" % (cfg, s.key)
         if s.kind.startswith(("assert:div_zero", "assert:rem_zero")) and div_by_nonzero_const(s.body, s.bb):
@@ -69,12 +69,17 @@ def inventory_rule(rep, prog, cfg):
         if s.kind == "call:core::option::Option::unwrap" and panics.unwrap_guarded_by_test(s.body, s.bb):
             rep.ok("C09.inventory", inst, detail={"where": s.where, "discharged": "unwrap dominated by is_some edge"})
             continue
-        used[s.key] = used.get(s.key, 0) + 1
-        aud = AUDITED.get(s.key)
-        if aud is not None and used[s.key] <= aud[0]:
-            rep.ok("C09.inventory", inst + ("#%d" % used[s.key] if aud[0] > 1 else ""), detail={"where": s.where, "audited": aud[1]})
+        rest.append(s)
+    am = panics.AuditMatcher(AUDITED, rest)
+    seen_n = {}
+    for s in rest:
+        aud, k = am.lookup(s)
+        seen_n[k] = seen_n.get(k, 0) + 1
+        inst = "%s/%s" % (cfg, k)
+        if aud is not None:
+            rep.ok("C09.inventory", inst + ("#%d" % seen_n[k] if aud[0] > 1 else ""), detail={"where": s.where, "audited": aud[1]})
         else:
-            rep.fail("C09.inventory", "%s#%d" % (inst, used[s.key]) if aud else inst, s.where,
+            rep.fail("C09.inventory", "%s#%d" % (inst, seen_n[k]) if seen_n[k] > 1 else inst, s.where,
                      "unaudited panic-capable construct `%s` in %s, reachable from connect/receive with peer-controlled data" % (s.kind, s.fn))
     rep.floor("C09.inventory", cfg + "/sites", len(sites), 10)
 
